@@ -609,7 +609,7 @@ def same_meaning(a, b):
 
 # ---------------------------------------------------------------------------- the run
 class Entry:
-    __slots__ = ("id", "kind", "obj", "recipe", "muts", "snap", "stable")
+    __slots__ = ("id", "kind", "obj", "recipe", "muts", "snap", "stable", "offset_iso")
 
 
 def _do(name, obj, other, arg):
@@ -779,6 +779,7 @@ def run(case, out):
             return
         e.snap = None
         e.stable = True
+        e.offset_iso = True      # for a regex: its tree is fixed by the descriptor
         entries[e.id] = e
         order.append(e.id)
     out.shape = digest(case)
@@ -856,7 +857,7 @@ def run(case, out):
         if name == "mutate":
             if any(g["src"] == on and not g["done"] for g in gens.values()):
                 continue        # mutating a container while a generator walks it is outside every contract
-            if not e.stable and not _int_named(e.kind, e.obj):
+            if not e.stable and not (e.offset_iso and _int_named(e.kind, e.obj)):
                 out.probe("mutation_skipped_unstable_names")
                 continue
             what = out.call("mutate." + e.kind, apply_mutator, e.kind, e.obj, op["arg"])
@@ -977,8 +978,11 @@ def run(case, out):
         if name == "fa.shared":
             out.fault("shared_parts")
         if got is BUDGETED:
-            out.fail("I2:live-call-does-not-terminate", step=step, op=name)
-            return
+            # ten times slower than on a fresh replica: a performance effect of the history (e.g. a warmed marking
+            # table that no longer exits early), not an answer -- inconclusive; a real hang is caught by the
+            # whole-case confirmation budget in sim.core
+            out.probe("live_call_much_slower_than_fresh_inconclusive")
+            continue
         if want_exc or got_exc:
             if want_exc != got_exc:
                 out.fail("I2:exception-differs-from-fresh-replica", step=step, op=name, live=got_exc, fresh=want_exc)
@@ -1022,6 +1026,16 @@ def run(case, out):
             # differs between the live object and a fresh replica
             ne.stable = (e.stable and (k2 is None or entries[op["other"]].stable)
                          and e.kind != "regex" and (k2 != "regex"))
+            # offset_iso: the live object and its replica have the same structure and int names that differ by a
+            # constant (Thompson construction of a regex whose tree is fixed); kept by operations that keep names
+            if name == "regex.to_epsilon_nfa":
+                ne.offset_iso = e.offset_iso
+            elif name in ("regex.union", "regex.concatenate", "regex.kleene_star"):
+                ne.offset_iso = e.offset_iso and (k2 is None or entries[op["other"]].offset_iso)
+            elif name in ("fa.reverse", "fa.copy", "fa.shared"):
+                ne.offset_iso = e.offset_iso
+            else:
+                ne.offset_iso = ne.stable
             if any(got is entries[x].obj for x in order):
                 out.probe("conversion_returned_an_existing_object")
             entries[ne.id] = ne
